@@ -91,7 +91,14 @@ CStatus(t, st, p, tg, v) == [Call("status") EXCEPT !.t = t, !.kind = st, !.form 
 
 \* e: event name; t: test; k: outcome kind / status word; p: payload class; tg: tags current at that moment
 \* (NoTags when the object has none); n, g: arguments of tags(); v, w: time values
-Ev(e, t, k, p, tg, n, g, v, w) == [e |-> e, t |-> t, k |-> k, p |-> p, tg |-> tg, n |-> n, g |-> g, v |-> v, w |-> w]
+\* ref: <<>> when tg is a value of its own (a copy); <<d>> when the consumer was handed the LIVE set of the tag context at
+\* depth d of the node that logged the event (deviation "liveTagSets": get_current_tags() returning its internal set)
+Ev(e, t, k, p, tg, n, g, v, w) == [e |-> e, t |-> t, k |-> k, p |-> p, tg |-> tg, n |-> n, g |-> g, v |-> v, w |-> w, ref |-> <<>>]
+\* what the holder of a delivered event sees in it NOW
+View(s, ev) == IF ev.ref = <<>> \/ ev.ref[1] > Len(s.ctx) THEN ev.tg ELSE s.ctx[ev.ref[1]]
+\* a context object that goes out of use keeps the content it had: events referring to depth >= d get that value for good
+Freeze(s, d) == [s EXCEPT !.log = [y \in DOMAIN @ |-> IF @[y].ref # <<>> /\ @[y].ref[1] >= d
+                                                      THEN [@[y] EXCEPT !.tg = View(s, @[y]), !.ref = <<>>] ELSE @[y]]]
 EvPlain(e, t) == Ev(e, t, None, None, NoTags, {}, {}, None, None)
 
 -----------------------------------------------------------------------------
@@ -310,12 +317,17 @@ TFRNode(m, i, c) ==
                 s2 == IF "tfrKeepsGlobalTags" \in Coded THEN s1 ELSE [s1 EXCEPT !.gt = NoPair]
             IN D([m EXCEPT ![i] = s2], j, c)
       [] c.op = "startTest" -> [m EXCEPT ![i] = [TTStep(s, c) EXCEPT !.ts = NowOf(s)]]
-      [] c.op = "stopTest" -> [m EXCEPT ![i] = TTStep(s, c)]
+      \* as required: tags() made while a test is current (also between its outcome and stopTest) are test-local and
+      \* gone with the test.  As coded ("tfrPostOutcomeTagsGlobal"): test-local means `_test_start is not None`, which
+      \* the outcome resets - a later tags() of the same test lands in the run-level buffer and is sent with every later test
+      [] c.op = "stopTest" ->
+            [m EXCEPT ![i] = IF "tfrPostOutcomeTagsGlobal" \in Coded THEN TTStep(s, c) ELSE [TTStep(s, c) EXCEPT !.tt = NoPair]]
       [] c.op = "time" -> [m EXCEPT ![i] = TTStep(s, c)]
       [] c.op = "tags" ->
-            LET s1 == TTStep(s, c) IN
-            [m EXCEPT ![i] = IF s.ts # Unset THEN [s1 EXCEPT !.tt = Merge(@, c.n, c.g)]
-                                              ELSE [s1 EXCEPT !.gt = Merge(@, c.n, c.g)]]
+            LET s1 == TTStep(s, c)
+                local == IF "tfrPostOutcomeTagsGlobal" \in Coded THEN s.ts # Unset ELSE Len(s.ctx) > 1 IN
+            [m EXCEPT ![i] = IF local THEN [s1 EXCEPT !.tt = Merge(@, c.n, c.g)]
+                                      ELSE [s1 EXCEPT !.gt = Merge(@, c.n, c.g)]]
       [] c.op = "add" ->
             \* _add_result_with_semaphore: one complete block per outcome
             LET any(p) == p[1] # {} \/ p[2] # {}
@@ -335,16 +347,18 @@ E2SNode(m, i, c) ==
                             IF Kids(i) = <<>> THEN m1 ELSE D(m1, Kid(i), sc)
     IN
     CASE c.op = "startTestRun" ->
-            sink([m EXCEPT ![i].ctx = Root, ![i].stop = FALSE, ![i].now = None], EvPlain("startTestRun", None), c)
+            sink([m EXCEPT ![i] = [Freeze(@, 1) EXCEPT !.ctx = Root, !.stop = FALSE, !.now = None]], EvPlain("startTestRun", None), c)
       [] c.op = "stopTestRun" -> sink(m, EvPlain("stopTestRun", None), c)
       [] c.op = "startTest" ->
             LET m1 == sink(m, Ev("status", c.t, "inprogress", None, NoTags, {}, {}, NowOf(s), None),
                            CStatus(c.t, "inprogress", None, NoTags, NowOf(s)))
             IN [m1 EXCEPT ![i].ctx = Push(@)]
-      [] c.op = "stopTest" -> [m EXCEPT ![i].ctx = Pop(@)]
+      [] c.op = "stopTest" ->
+            [m EXCEPT ![i] = IF Len(Pop(s.ctx)) < Len(s.ctx) THEN [Freeze(s, Len(s.ctx)) EXCEPT !.ctx = Pop(@)] ELSE s]
       [] c.op = "add" ->
             LET w == StreamWord(c.kind)
-                m1 == sink(m, Ev("status", c.t, w, StreamPayload(c.form), Cur(s.ctx), {}, {}, NowOf(s), None),
+                live == IF "liveTagSets" \in Coded /\ s.ctx # <<>> THEN <<Len(s.ctx)>> ELSE <<>>
+                m1 == sink(m, [Ev("status", c.t, w, StreamPayload(c.form), Cur(s.ctx), {}, {}, NowOf(s), None) EXCEPT !.ref = live],
                            CStatus(c.t, w, StreamPayload(c.form), Cur(s.ctx), NowOf(s)))
             \* StreamFailFast as second target
             IN IF s.ff /\ w \in {"fail", "uxsuccess"} THEN [m1 EXCEPT ![i].stop = TRUE] ELSE m1
@@ -478,7 +492,7 @@ StopTestRun ==
     /\ phase' = "idle"
     /\ UNCHANGED <<runs, ntests, ntagops, ntimes, nff, stopped, curtest>>
 Tags ==
-    /\ phase \in {"run", "test"} /\ ntagops < MaxTagOps
+    /\ phase \in {"run", "test", "outcome"} /\ ntagops < MaxTagOps
     /\ \E p \in TagOps : Do(CTags(p[1], p[2]))
     /\ ntagops' = ntagops + 1
     /\ UNCHANGED <<phase, runs, ntests, ntimes, nff, stopped, curtest>>
@@ -608,9 +622,13 @@ ExpectedTagSeq(l) == LET idx == SeqOfSet(ObservedAt(l))
                      IN [y \in DOMAIN idx |-> SpecTagsAt(idx[y] - 1, tg)]
 ObservedTagSeq(l) ==
     LET evs == SelectSeq(ns[l].log, LAMBDA e : e.e \in {"add", "ontest"} \/ (e.e = "status" /\ e.k # "inprogress"))
-    IN [y \in DOMAIN evs |-> evs[y].tg]
+    IN [y \in DOMAIN evs |-> View(ns[l], evs[y])]
 TagObservers == {l \in LoggedNodes : K(l) \in TTLike \cup {"Ext", "E2S"}}
 TagsObserved == \A l \in TagObservers : ObservedTagSeq(l) = ExpectedTagSeq(l)
+
+\* ... and keeps observing: no later call changes what was delivered for a test that already has its outcome
+DeliveredStable == [][\A l \in LoggedNodes : \A y \in DOMAIN ns[l].log :
+                          View(ns'[l], ns'[l].log[y]) = View(ns[l], ns[l].log[y])]_vars
 
 \* C08 ---------------------------------------------------------------------
 \* the documented fixed degradation, by target flavour
